@@ -53,3 +53,23 @@ pub fn model_lms_sign<H: HashChain>(
     lms_private_key.used_leafs_index += 1;
     Ok(s)
 }
+
+/// "expansion fails" contract of `HssPrivateKey::from`: used where only the paths *before* the
+/// expansion are the subject (malformed key bytes); every path that reaches the expansion ends
+/// in an error here, so "signing fails for another reason" is exercised as well.
+pub fn model_from_fails<H: HashChain>(
+    _private_key: &hbs_lms::verif_hooks::hss_key::ReferenceImplPrivateKey<H>,
+    _aux: &mut Option<MutableExpandedAuxData>,
+) -> Result<hbs_lms::verif_hooks::hss_definitions::HssPrivateKey<H>, ()> {
+    Err(())
+}
+
+/// "signing fails" contract of `HssSignature::sign`.
+pub fn model_hss_sign_fails<H: HashChain>(
+    _private_key: &mut hbs_lms::verif_hooks::hss_definitions::HssPrivateKey<H>,
+    _message: Option<&[u8]>,
+    _message_mut: Option<&mut [u8]>,
+    _aux: &mut Option<MutableExpandedAuxData>,
+) -> Result<hbs_lms::verif_hooks::hss_signing::HssSignature<H>, ()> {
+    Err(())
+}
